@@ -124,3 +124,60 @@ def generate(descs, accel):
         set_block(o, d, accel)
         ops.append(o)
     return api.npu_generate_register_command_stream(ops, ACCEL[accel]), ops
+
+
+# ------------------------------------------------------------------ objects -> descriptions
+def _fm_desc(f):
+    if f is None:
+        return None
+    d = {"shape": [int(f.shape.height), int(f.shape.width), int(f.shape.depth)], "region": int(f.region), "dtype": f.data_type.name,
+         "layout": f.layout.name,
+         "tiles": {"w0": int(f.tiles.width_0), "h0": int(f.tiles.height_0), "h1": int(f.tiles.height_1),
+                   "addrs": [int(a) for a in f.tiles.addresses]}}
+    q = f.quantization
+    if q is None:
+        d["noquant"] = True
+    else:
+        d["scale"] = None if q.scale_f32 is None else float(q.scale_f32)
+        d["zp"] = int(q.zero_point)
+    if f.strides is not None:
+        d["strides"] = [int(f.strides.height), int(f.strides.width), int(f.strides.depth)]
+    return d
+
+
+def describe(op):
+    """NpuOperation object -> description (inverse of build, for operations Vela itself produced)"""
+    if isinstance(op, api.NpuDmaOperation):
+        return {"type": "dma", "src": [int(op.src.region), int(op.src.address), int(op.src.length)],
+                "dst": [int(op.dest.region), int(op.dest.address), int(op.dest.length)]}
+    if isinstance(op, api.NpuConv2DOperation):
+        d = {"type": "conv", "traversal": op.block_traversal.name}
+    elif isinstance(op, api.NpuConvDepthWiseOperation):
+        d = {"type": "dw"}
+    elif isinstance(op, api.NpuPoolingOperation):
+        d = {"type": "pool", "sub": op.sub_op_type.name}
+    else:
+        d = {"type": "ew", "sub": op.sub_op_type.name, "reversed": bool(op.reversed_operands)}
+    d["ifm"] = _fm_desc(op.ifm)
+    d["ofm"] = _fm_desc(op.ofm)
+    if op.ifm2 is not None:
+        d["ifm2"] = _fm_desc(op.ifm2)
+    if op.ifm2_scalar is not None:
+        d["scalar"] = float(op.ifm2_scalar)
+    if op.kernel is not None:
+        k = op.kernel
+        d["kernel"] = [int(v) for v in (k.width, k.height, k.stride_x, k.stride_y, k.dilation_x, k.dilation_y)]
+    if op.padding is not None:
+        d["pad"] = [int(v) for v in (op.padding.top, op.padding.left, op.padding.bottom, op.padding.right)]
+    d["weights"] = [[int(w.region), int(w.address), int(w.length)] for w in op.weights]
+    d["biases"] = [[int(w.region), int(w.address), int(w.length)] for w in op.biases]
+    if op.activation is not None:
+        a = op.activation
+        d["act"] = {"op": a.op_type.name, "min": None if a.min is None else float(a.min),
+                    "max": None if a.max is None else float(a.max), "lut": int(a.lookup_table_index)}
+    bc = op.block_config
+    d["block"] = [int(bc.height), int(bc.width), int(bc.depth)]
+    d["rounding"] = op.rounding_mode.name
+    d["upscale"] = op.ifm_upscale.name
+    d["fused_quantize"] = bool(op.fused_quantize)
+    return d
